@@ -17,6 +17,7 @@
 # along with this program.  If not, see <http://www.gnu.org/licenses/>.
 
 import os
+import re
 from numbers import Number
 
 import numpy as np
@@ -40,6 +41,7 @@ class DefaultFormatter(BaseFormatter):
         "_line_endings",
         "_decimal_places",
         "_comment_template",
+        "_comment_ending",
         "_valid_axes",
     )
 
@@ -84,8 +86,14 @@ class DefaultFormatter(BaseFormatter):
         if not value.strip():
             raise ValueError("Comment symbols cannot be empty")
 
-        template = self._to_comment_template(value.strip())
+        symbols = value.strip()
+        template = self._to_comment_template(symbols)
         self._comment_template = template
+        self._comment_ending = None
+
+        if symbols in COMMENT_OPENINGS:
+            index = COMMENT_OPENINGS.index(symbols)
+            self._comment_ending = COMMENT_ENDINGS[index]
 
     @typechecked
     def set_decimal_places(self, value: int) -> None:
@@ -171,6 +179,14 @@ class DefaultFormatter(BaseFormatter):
         Returns:
             Formatted comment string
         """
+
+        # Line breaks or the closing symbols inside the text would end
+        # the comment early and the rest would be read as G-code.
+
+        text = re.sub(r"[\r\n]+", " ", text)
+
+        if self._comment_ending is not None:
+            text = text.replace(self._comment_ending, " ")
 
         return self._comment_template.format(text)
 
